@@ -131,6 +131,19 @@ func TestVerif_C17_Pure(t *testing.T) {
 		if bytes.Equal(nxt.RawRotationTopic(), p1) {
 			fail("period-ignored", "next period gives the same point")
 		}
+		// the same instance asked for the same topic and period with another seed (a contact reset its reference, a topic
+		// is registered again with another key): the point follows the seed
+		{
+			seedB := append(append([]byte(nil), seed...), 0x5a)
+			pb := ri.NewRendezvousPointForPeriod(at, string(topic), seedB)
+			if !bytes.Equal(pb.RawRotationTopic(), c17RefPoint(string(topic), seedB, start)) {
+				fail("not-the-keyed-digest", "the same rotation instance asked again for the same topic and period with another seed does not return the keyed digest of that seed")
+			}
+			pa := ri.NewRendezvousPointForPeriod(other, string(topic), seed)
+			if !bytes.Equal(pa.RawRotationTopic(), p1) {
+				fail("same-period-differs", "asking again with the first seed gives another point")
+			}
+		}
 		// a non-zero byte: HMAC zero-pads short keys, so a trailing 0x00 is not a different key
 		seed2 := append(append([]byte(nil), seed...), byte(rapid.IntRange(1, 255).Draw(rt, "seedx")))
 		if bytes.Equal(GenerateRendezvousPointForPeriod(topic, seed2, start), p1) {
